@@ -134,7 +134,8 @@ class DatasetBase:
         """
         shard_list: ShardsList = ShardsList.model_validate_json(
             (self.path /
-             shard_list_info.shard_list_info_file.file_path).read_text())
+             shard_list_info.shard_list_info_file.file_path
+            ).read_text(encoding="utf-8"))
 
         yield from shard_list.shard_files
 
